@@ -208,6 +208,21 @@ def run(ctx, rep):
         sers = [(t, cal, c) for bb, t, cal, c in b.calls() if cal in ("serde_json::ser::to_string_pretty", "toml::ser::to_string_pretty")]
         ok = len(sers) == 2 and all(show_origin(b.origin(t["args"][0])).strip("&") in ("arg1", "&arg1") or "arg1" == show_origin(b.origin(t["args"][0])).replace("&", "") for t, cal, c in sers)
         rep.check(ok, "R15.2", "R15.2|write_root", "write_stats serialises the collector itself in both formats", ws)
+        # the statistics file holds exactly the serialised document: it is written by a truncating call (fs::write,
+        # File::create, or OpenOptions with truncate(true) and without append) — a longer file left from an earlier run
+        # would otherwise keep its tail and the result would not parse / not compare
+        from ..mir import Body as _Body, inline_fn as _inline
+        wb = _Body(_inline(f, ws, lambda c: c.startswith("fastpasta::stats::") and "{closure" not in c, max_depth=3, max_blocks=2000))
+        sinks_ok, sinks_bad = [], []
+        truncs = [bb for bb, t, cal, c in wb.calls() if cal == "std::fs::OpenOptions::truncate" and t["args"][1].get("c", {}).get("int") == 1]
+        appends = [bb for bb, t, cal, c in wb.calls() if cal == "std::fs::OpenOptions::append"]
+        for bb, t, cal, c in wb.calls():
+            if cal in ("std::fs::write", "std::fs::File::create", "std::fs::File::create_new"):
+                sinks_ok.append(cal.split("::")[-1])
+            elif cal == "std::fs::OpenOptions::open":
+                (sinks_ok if (any(wb.dominates(tb_, bb) for tb_ in truncs) and not appends) else sinks_bad).append("OpenOptions::open")
+        rep.check(bool(sinks_ok) and not sinks_bad, "R15.2", "R15.2|sink_truncated", "the statistics file is written by a truncating call (%s)" % sorted(set(sinks_ok)), ws,
+                  "the statistics file is opened without truncation (%s): an existing longer file keeps its tail" % (sinks_bad or "no file sink found"))
     cr = "fastpasta::controller::Controller::<C>::run"
     if cr in f.fns:
         # run() with the free helper functions of its module inlined (the file loading may live in an extracted helper)
